@@ -28,7 +28,7 @@ MANIFEST = dict(
     technique='exhaustive enumeration of all random outcomes of the real protocols with exact (Fraction) output distributions; statistical distance oracle',
     text='For sgn (full, LT, EQ), lsb, trunc, _mod, to_bits, trailing_zeros, conversions, is_zero_public, reciprocal at l<=3, k in {3,4(,5)}: the exact '
          'distribution of the values opened inside the protocol is computed for every secret input by enumerating every mask/bit/blinding outcome; '
-         'inputs with equal outputs must have views within statistical distance 4*2^-k. Multi-party premise: on real (3,1), (4,1) runs of the corpus '
+         'inputs with equal outputs must have views within statistical distance 4*2^-k. Multi-party premise: on real (3,1), (4,1), (5,2) runs of the corpus (fresh PRSS common inputs; mask width = C(m,t) summands within 2 bits of the request) '
          'every PRSS evaluation of every party uses a fresh common input (masks, random bits and zero sharings are independent).',
     ref='DESIGN 5/C18, 7', note='trusted: randomness seam owns every draw; uniform draws; observer model (see assumptions)')
 
@@ -123,7 +123,7 @@ def jobs(tier, seed):
     # the probabilistic zero test opens k blinded field elements: enumerable only at k = 1 (|F|^2 outcomes per round)
     out.append(dict(l=2, k=1, name='_is_zero', tier=tier, seed=seed))
     # multi-party premise of all of the above: every PRSS evaluation uses a fresh common input
-    for (m, t) in ((3, 1), (4, 1)) if tier == 'quick' else ((2, 0), (3, 1), (4, 1), (5, 2)):
+    for (m, t) in ((3, 1), (4, 1), (5, 2)) if tier == 'quick' else ((2, 0), (3, 1), (4, 1), (5, 2), (7, 3)):
         out.append(dict(engine='prss_uci', m=m, t=t, tier=tier, seed=seed))
     if tier == 'thorough':
         out.append(dict(l=3, k=1, name='_is_zero', tier=tier, seed=seed))
@@ -146,28 +146,46 @@ def run_prss_uci(job):
     world = World(m, t, False, seed=job['seed'])
     logs = [[] for _ in range(m)]
     names = ('pseudorandom_share', 'pseudorandom_share_zero', 'np_pseudorandom_share', 'np_pseudorandom_share_0')
+    mlogs = [[] for _ in range(m)]
     for i, u in enumerate(world.universes):
+        # mask width (multi-party): every bounded request to _randoms/_np_randoms is served by C(m,t) PRSS summands whose
+        # bounds add up to at most the requested bound and to at least a quarter of it (power-of-two rounding loses < 2 bits)
+        u.thresha._verif_mlogs = mlogs
+        rtcls = type(u.mpc)
+        for rn in ('_randoms', '_np_randoms'):
+            orig_r = getattr(rtcls, rn, None)
+            if orig_r is None or getattr(orig_r, '_verif_mask', False):
+                continue
+
+            def rwrapped(self, sftype, n, bound=None, _orig=orig_r, _th=u.thresha):
+                if bound is not None:
+                    _th._verif_mlogs[self.pid].append(('req', bound))
+                return _orig(self, sftype, n, bound)
+            rwrapped._verif_mask = True
+            setattr(rtcls, rn, rwrapped)
         for fn in names:
             orig = getattr(u.thresha, fn, None)
             if orig is None or getattr(orig, '_verif_uci', False):
                 continue
 
-            def wrapped(field, m_, i_, prfs, uci, n, *a, _orig=orig, _fn=fn, _log=logs[i], **kw):
+            def wrapped(field, m_, i_, prfs, uci, n, *a, _orig=orig, _fn=fn, _log=logs[i], _th=u.thresha, **kw):
                 bound = None
                 try:
                     bound = next(iter(prfs.values())).max if hasattr(next(iter(prfs.values())), 'max') else None
                 except Exception:
                     pass
                 _log.append((_fn, getattr(field, '__name__', str(field)), bytes(uci), n if isinstance(n, int) else tuple(n) if n is not None else None))
+                if _fn in ('pseudorandom_share', 'np_pseudorandom_share'):
+                    _th._verif_mlogs[i_].append(('prss', bound))
                 return _orig(field, m_, i_, prfs, uci, n, *a, **kw)
             wrapped._verif_uci = True
             setattr(u.thresha, fn, wrapped)
     for name in UCI_PROGRAMS:
         prog = PROGRAMS[name]
-        if m not in prog['ms'] and not (m == 4 and 3 in prog['ms']):
+        if m not in prog['ms'] and not (m in (4, 5, 7) and 3 in prog['ms'] and name != 'small_field'):
             continue
         ctxs = []
-        for lg in logs:
+        for lg in logs + mlogs:
             del lg[:]
         x = run_execution(world, make_setup(prog, ctxs), (), 'eager', 'none', sched_alts=False)
         part.transitions += x.nsteps
@@ -185,7 +203,22 @@ def run_prss_uci(job):
                                        f'{pfn}({pfld}, n={pn}): the two pseudorandom sharings are not independent',
                                        dict(engine='prss_uci', m=m, t=t, tier=job['tier'], seed=job['seed']))
                 seen[uci] = (fn, fld, n, idx)
-            part.outcomes.add(stable_hash((name, p, len(logs[p]))) & 0xffffff)
+            import math
+            d = math.comb(m, t)
+            for idx, ent in enumerate(mlogs[p]):
+                if ent[0] != 'req':
+                    continue
+                part.case(key=None, nontrivial=True)
+                nxt = mlogs[p][idx + 1] if idx + 1 < len(mlogs[p]) else None
+                if nxt is None or nxt[0] != 'prss' or nxt[1] is None:
+                    part.violation('C18:mask-width:no-prss-call', f'[{cfg}] party {p}: bounded random request ({ent[1]}) not followed by its PRSS '
+                                   f'evaluation (got {nxt})', dict(engine='prss_uci', m=m, t=t, tier=job['tier'], seed=job['seed']))
+                elif d * nxt[1] > ent[1] or (ent[1] >= 4 * d and 4 * d * nxt[1] < ent[1]):
+                    part.violation('C18:mask-width', f'[{cfg}] party {p}: mask requested with bound 2^{ent[1].bit_length() - 1} is the sum of '
+                                   f'{d} PRSS summands of bound {nxt[1]} each: total {d * nxt[1]} is '
+                                   + ('larger than requested (overflow)' if d * nxt[1] > ent[1] else 'more than 2 bits short of the requested width'),
+                                   dict(engine='prss_uci', m=m, t=t, tier=job['tier'], seed=job['seed']))
+            part.outcomes.add(stable_hash((name, p, len(logs[p]), len(mlogs[p]))) & 0xffffff)
         if x.status != 'done':
             part.caps.append(f'{cfg}: run ended {x.status}')
     return part
